@@ -7,7 +7,7 @@ import mpmath as mp
 import numpy as np
 from hypothesis import strategies as st
 
-from ..core import Facet, Violation
+from ..core import Facet, Violation, attributed
 from ..gen import SIGNED_PERMS, logfloat, quaternion, signed, unit_vector
 from ..ref import kin, qvec, units
 
@@ -905,7 +905,8 @@ def check_graph(case):
     da = sc.DataArray(sc.ones(dims=list(sizes), shape=list(sizes.values())), coords=coords)
     graph = getattr(G, case["factory"])(case["start"])
     targets = ["Q_vec"] if case["factory"] == "elastic_Q_vec" else ["Q_vec", "hkl_vec", "h", "k", "l"]
-    out = da.transform_coords(targets, graph=graph, rename_dims=False, keep_intermediate=True, keep_inputs=True)
+    with attributed(f"transform_coords({targets}) over graph.tof.{case['factory']}({case['start']!r})"):
+        out = da.transform_coords(targets, graph=graph, rename_dims=False, keep_intermediate=True, keep_inputs=True)
     lam_unit = case["lam"]["unit"]
     ufac = units.ALL["1/" + lam_unit] / units.ALL[case["B"]["unit"]]
     ops = {"lam": (case["lam"]["dims"], lam_values), "bi": (case["bi"]["dims"], case["bi"]["values"]),
